@@ -48,6 +48,7 @@ type FuncContract struct {
 	Claims     []string // partial contract: prefixes of the obligation names that are claimed
 	NoInline   []string // callees to treat by havoc
 	PanicsIf   []Clause
+	Variant    []Clause // recursion variant: a non-negative integer that decreases at every call to a function with a variant
 	File       string
 	Fresh      []string // results that are freshly allocated
 	Unroll     int
@@ -346,6 +347,12 @@ func parseClause(fc *FuncContract, word, rest, pos string) error {
 			return err
 		}
 		fc.PanicsIf = append(fc.PanicsIf, cl)
+	case "variant":
+		cl, err := mk()
+		if err != nil {
+			return err
+		}
+		fc.Variant = append(fc.Variant, cl)
 	case "assigns":
 		fc.HasAssigns = true
 		if strings.TrimSpace(rest) == "*" {
